@@ -47,6 +47,16 @@ def pending_press(s):
     s.advance(0.4)
 
 
+def lost_endpoint(s):
+    """the operating system takes the connection's endpoint away (fatal socket error: connection_lost runs) shortly
+    before the reset comes; the spa object and its helper tasks are still there and are the reset's to clean up"""
+    tr = s.conn_transport()
+    if tr is None:
+        raise env.MachineryError("lost_endpoint: no connection endpoint")
+    tr.close()
+    s.advance(0.2)
+
+
 def client_observers_on_devices(s, calls):
     """the client watches individual devices of the facade (water care, reminders, sensors, pumps), not only the facade"""
     f = s.facade
@@ -404,6 +414,8 @@ def run(ctx):
     pts = sorted(set(pts) | set(extra_pts))
     for p in pts:
         recs += reset_at(rng, p)
+    recs += reset_at(rng, 12.0, prepare=lost_endpoint)
+    recs += reset_at(rng, 5.0, prepare=lost_endpoint)
     recs += reset_at(rng, 12.0, prepare=pending_press)
     recs += exit_at(rng, 12.0, prepare=pending_press)
     recs += reset_in_first_pause(rng, 1)
